@@ -23,6 +23,8 @@ exactly the accumulated token pieces.
 Added while testing against seeded changes: Also: module-level named literals are folded; quote membership is tested
 against context.allowed_quote_chars only; whitespace ends a token exactly when context.token is non-empty and a
 closing quote leaves the empty marker.
+Third round: split-result-not-shared — split() carries no cache/memo decorator and returns a list literal / comprehension / list(...)
+built by the call (callers edit the result in place).
 Does not decide: that split() inverts the documented quoting for all strings (induction over inputs).
 """
 STATES = ["_Whitespace", "_Quotes", "_Backslash", "_Word"]
@@ -136,9 +138,17 @@ def run(ctx):
     ctx.check("token-assembly", wg, len(loops) == 1 and norm(loops[0].iter) == "self.seq" and any(isinstance(s, ast.Assign) and isinstance(s.value, ast.Call) and call_attr(s.value) == "process" and call_recv(s.value) == norm(s.targets[0]) and [norm(a) for a in s.value.args] == [norm(loops[0].target), "self"] for s in walk_own(loops[0])), "every character of the input sequence is fed to the current state")
     fp = repo.func(CL, "_PushbackSequence.__next__")
     ctx.check("pushback", f"{CL}:_PushbackSequence.__next__", "self._pushback_buffer.pop()" in norm(fp) and "next(self._iter)" in norm(fp), "a pushed-back character is delivered before the next input character")
-
+    # ---- every call of split() builds its own list (callers edit the result in place) ----------------------------------
+    fsp = repo.func(CL, "split")
+    decos = [norm(d) for d in fsp.decorator_list]
+    memo = [d for d in decos if any(w in d.lower() for w in ("cache", "memo"))]
+    rets_sp = [r_ for r_ in walk_own(fsp) if isinstance(r_, ast.Return) and r_.value is not None]
+    fresh = bool(rets_sp) and all(isinstance(r_.value, (ast.ListComp, ast.List)) or (isinstance(r_.value, ast.Call) and norm(r_.value.func) in ("list", "sorted")) for r_ in rets_sp)
+    shared = sorted({n.id for r_ in rets_sp for n in ast.walk(r_.value) if isinstance(n, ast.Name) and n.id.isupper()})
+    ctx.check("split-result-not-shared", f"{CL}:split", not memo and fresh and not shared, "split() is not memoised and returns a list built by this call", construct=str(memo or shared or [norm(r_)[:60] for r_ in rets_sp]), message=f"split() hands out a list that is shared between calls ({memo or shared or 'not a freshly built list'}): callers edit the result in place (mergetools.invoke replaces the first word, get_change_editor extends it), so the next split of the same string returns the edited list — arguments lost or invented outside the quoting syntax")
 
 MUTANTS = [
+    Mutant("split() memoised", CL, "def split(unsplit, single_quotes_allowed=True):\n", "import functools\n\n\n@functools.lru_cache(maxsize=256)\ndef split(unsplit, single_quotes_allowed=True):\n", expect="split-result-not-shared"),
     Mutant("backslash state uses a fixed quote set", CL, "            self.count += 1\n            return self\n        elif next_char in context.allowed_quote_chars:", "            self.count += 1\n            return self\n        elif next_char in \"\\\"'\":", expect="quote-table-single-source"),
     Mutant("token ended only after a quotation", CL, "            if len(context.token) > 0:\n                return None", "            if context.quoted:\n                return None", expect="token-ends-when-nonempty"),
     Mutant("neutral: backslash literal named", CL, "class _Whitespace:\n", "_BACKSLASH = \"\\\\\"\n\n\nclass _Whitespace:\n", neutral=True),
